@@ -18,6 +18,7 @@ package validate
 // This must be done while keeping CI intact with all tests and test coverage
 
 import (
+	"fmt"
 	"reflect"
 	"strconv"
 	"strings"
@@ -251,12 +252,7 @@ func (h *paramHelper) resolveParam(path, method, operationID string, param *spec
 	var err error
 	res := new(Result)
 	isRef := param.Ref.String() != ""
-	if s.spec.SpecFilePath() == "" {
-		err = spec.ExpandParameterWithRoot(param, s.spec.Spec(), nil)
-	} else {
-		err = spec.ExpandParameter(param, s.spec.SpecFilePath())
-
-	}
+	err = expandParameter(param, s)
 	if err != nil { // Safeguard
 		// NOTE: we may enter here when the whole parameter is an unresolved $ref
 		refPath := strings.Join([]string{"\"" + path + "\"", method}, ".")
@@ -303,12 +299,7 @@ func (r *responseHelper) expandResponseRef(
 	// Ensure response is expanded
 	var err error
 	res := new(Result)
-	if s.spec.SpecFilePath() == "" {
-		// there is no physical document to resolve $ref in response
-		err = spec.ExpandResponseWithRoot(response, s.spec.Spec(), nil)
-	} else {
-		err = spec.ExpandResponse(response, s.spec.SpecFilePath())
-	}
+	err = expandResponse(response, s)
 	if err != nil { // Safeguard
 		// NOTE: we may enter here when the whole response is an unresolved $ref.
 		errorHelp.addPointerError(res, err, response.Ref.String(), path)
@@ -330,4 +321,43 @@ func (r *responseHelper) responseMsgVariants(
 		responseName = "response " + responseCodeAsStr
 	}
 	return
+}
+
+// unresolvedOnPanic turns a panic of the reference machinery of go-openapi/spec into an error: a JSON pointer
+// that lands on an optional member which the document does not declare ("#/paths/~1a/put" when /a has no put)
+// makes it call a method on a typed nil pointer. To the validator, that reference does not resolve.
+//
+// To be deferred, with the address of the error result of the function which calls into that machinery.
+func unresolvedOnPanic(err *error) {
+	if r := recover(); r != nil {
+		*err = fmt.Errorf("reference cannot be resolved: %v", r)
+	}
+}
+
+func expandParameter(param *spec.Parameter, s *SpecValidator) (err error) {
+	defer unresolvedOnPanic(&err)
+
+	if s.spec.SpecFilePath() == "" {
+		return spec.ExpandParameterWithRoot(param, s.spec.Spec(), nil)
+	}
+
+	return spec.ExpandParameter(param, s.spec.SpecFilePath())
+}
+
+func expandResponse(response *spec.Response, s *SpecValidator) (err error) {
+	defer unresolvedOnPanic(&err)
+
+	if s.spec.SpecFilePath() == "" {
+		// there is no physical document to resolve $ref in response
+		return spec.ExpandResponseWithRoot(response, s.spec.Spec(), nil)
+	}
+
+	return spec.ExpandResponse(response, s.spec.SpecFilePath())
+}
+
+// expandSchemaAgainst is spec.ExpandSchema, a panic of which is an error.
+func expandSchemaAgainst(schema *spec.Schema, root interface{}) (err error) {
+	defer unresolvedOnPanic(&err)
+
+	return spec.ExpandSchema(schema, root, nil)
 }
